@@ -409,24 +409,51 @@ func OnceDo(o *sync.Once, f func()) {
 	o.Do(func() {})
 }
 
+// WaitGroup: a side counter (simulator goroutine only) decides readiness
+// deterministically; the real WaitGroup is kept in step so that its
+// happens-before edges stay real (Wait is only called once it cannot block).
+var wgTab = map[*sync.WaitGroup]int{}
+
+func ResetWaitGroups() { wgTab = map[*sync.WaitGroup]int{} }
+
+//go:norace
+func wgDelta(wg *sync.WaitGroup, d int) {
+	call(func() { wgTab[wg] += d })
+}
+
+//go:norace
+func wgZero(wg *sync.WaitGroup) bool {
+	var z bool
+	call(func() { z = wgTab[wg] <= 0 })
+	return z
+}
+
+func WaitGroupAdd(wg *sync.WaitGroup, n int) {
+	if Cur() != nil {
+		wgDelta(wg, n)
+	}
+	wg.Add(n)
+}
+
+func WaitGroupDone(wg *sync.WaitGroup) {
+	if Cur() != nil {
+		syncPoint()
+	}
+	// the real Done first: when the side counter reaches zero every real Done
+	// has completed, so the waiter's real Wait cannot block
+	wg.Done()
+	if Cur() != nil {
+		wgDelta(wg, -1)
+	}
+}
+
 func WaitGroupWait(wg *sync.WaitGroup) {
 	if Cur() == nil {
 		wg.Wait()
 		return
 	}
-	// sync.WaitGroup has no TryWait; poll with a helper goroutine-free trick:
-	// Wait returns immediately iff the counter is zero, which we detect by
-	// running Wait on an ephemeral goroutine with a done flag.
-	done := make(chan struct{})
-	go func() { wg.Wait(); close(done) }()
-	Block(func() bool {
-		select {
-		case <-done:
-			return true
-		default:
-			return false
-		}
-	})
+	Block(func() bool { return wgZero(wg) })
+	wg.Wait() // cannot block: see WaitGroupDone
 }
 
 // ---------------------------------------------------------------- sync.Map with deterministic Range
@@ -609,4 +636,60 @@ func NewRandSource(seed int64) rand.Source {
 		src.vals = []uint64{src.inner.Uint64() | 1}
 	}
 	return src
+}
+
+// ---------------------------------------------------------------- sync.Pool, deterministic
+
+// Pool replaces sync.Pool: the real one hands out objects depending on the P
+// the goroutine runs on and on GC cycles. This one is a LIFO stack; the mutex
+// never blocks (no scheduling point inside) and gives Put -> Get the same
+// happens-before edge the real pool gives.
+type Pool struct {
+	New func() any
+	mu  sync.Mutex
+	st  []any
+	reg bool
+}
+
+// pools are often package-level variables: they are emptied at the start of
+// every run so that no object crosses from one run into the next.
+var allPools []*Pool
+
+func ResetPools() {
+	for _, p := range allPools {
+		p.mu.Lock()
+		p.st = nil
+		p.mu.Unlock()
+	}
+}
+
+func (p *Pool) Get() any {
+	p.mu.Lock()
+	if !p.reg {
+		p.reg = true
+		allPools = append(allPools, p)
+	}
+	var x any
+	if n := len(p.st); n > 0 {
+		x = p.st[n-1]
+		p.st = p.st[:n-1]
+	}
+	p.mu.Unlock()
+	if x == nil && p.New != nil {
+		x = p.New()
+	}
+	return x
+}
+
+func (p *Pool) Put(x any) {
+	if x == nil {
+		return
+	}
+	p.mu.Lock()
+	if !p.reg {
+		p.reg = true
+		allPools = append(allPools, p)
+	}
+	p.st = append(p.st, x)
+	p.mu.Unlock()
 }
